@@ -1861,7 +1861,7 @@ import hist  # noqa: E402
 
 class HistorySpec(Spec):
     """properties decided on command histories driven through the real cmd_*"""
-    quick_n = 60
+    quick_n = 120
     thorough_n = 1500
     oracle_fn = None
     rule = ("seeded command histories (3-7 commands from check, check --locked, prune with every flag combination, regenerate "
